@@ -96,8 +96,428 @@ def applyGauge (groups : List (Nat × Nat)) (W : Nat → Nat → Nat → K) (UU 
   | none => UU r j
 end
 
+
+/-! ### covariant expressions: one syntax for every formula class
+
+  A formula class of `formula/covariant.py` computes, for an inner band set `inn` and the outer set `out`, blocks
+  (`nn`, `nl`, `ln`, `ll`) from blocks of Hamiltonian-gauge matrices `Xbar(name, der)` by sums, products over a shared
+  inner or outer index, Hermitian conjugation, scalar factors and element-wise factors that depend only on the two
+  band energies (`dEig_inv`, `E_out`, `(E_m+E_n)/2`).  `CExpr` is that syntax; `eval` is its meaning, executed by the
+  driver at `GRat` and used as such by the covariance theorem (`Lemmas/C04Expr.lean`). -/
+
+inductive Side | inn | out
+deriving DecidableEq, Repr
+
+def Side.other : Side → Side
+  | .inn => .out
+  | .out => .inn
+
+inductive CExpr (K : Type) : Side → Side → Type
+  /-- block (r, c) of `Xbar(name, der)[..., comps]` -/
+  | atom (name : String) (der : Nat) (comps : List Nat) (r c : Side) : CExpr K r c
+  | zero (r c : Side) : CExpr K r c
+  | add {r c : Side} : CExpr K r c → CExpr K r c → CExpr K r c
+  | sub {r c : Side} : CExpr K r c → CExpr K r c → CExpr K r c
+  | neg {r c : Side} : CExpr K r c → CExpr K r c
+  | smul {r c : Side} (a : K) : CExpr K r c → CExpr K r c
+  /-- matrix product over the shared index set `m` (`einsum("ml..,ln..->mn..")`) -/
+  | mul {r m c : Side} : CExpr K r m → CExpr K m c → CExpr K r c
+  /-- `X.swapaxes(0,1).conj()` -/
+  | herm {r c : Side} : CExpr K c r → CExpr K r c
+  /-- element-wise factor `φ(E_row, E_col)` -/
+  | had {r c : Side} (φ : K → K → K) : CExpr K r c → CExpr K r c
+
+/-- the blocks of the atoms, the block sizes and the band energies of the two index sets -/
+structure BEnv (K : Type) where
+  dim : Side → Nat
+  blk : String → Nat → List Nat → Side → Side → Nat → Nat → K
+  en : Side → Nat → K
+
+section
+variable {K : Type} [Add K] [Mul K] [Sub K] [Neg K] [Zero K]
+
+def CExpr.eval (conj : K → K) (env : BEnv K) : {r c : Side} → CExpr K r c → Nat → Nat → K
+  | _, _, .atom name der comps r c => env.blk name der comps r c
+  | _, _, .zero _ _ => fun _ _ => 0
+  | _, _, .add a b => fun i j => a.eval conj env i j + b.eval conj env i j
+  | _, _, .sub a b => fun i j => a.eval conj env i j - b.eval conj env i j
+  | _, _, .neg a => fun i j => -(a.eval conj env i j)
+  | _, _, .smul k a => fun i j => k * a.eval conj env i j
+  | _, _, .mul (m := m) a b => fun i j => sumRange (env.dim m) fun t => a.eval conj env i t * b.eval conj env t j
+  | _, _, .herm a => fun i j => conj (a.eval conj env j i)
+  | r, c, .had φ a => fun i j => a.eval conj env i j * φ (env.en r i) (env.en c j)
+
+/-! #### formula classes as expressions (each mirrors the `nn`/`ln` body of the class of the same name) -/
+
+/-- a formula with Cartesian indices: components ↦ the four blocks -/
+abbrev Fm (K : Type) := List Nat → (r c : Side) → CExpr K r c
+
+/-- a formula that only has the diagonal blocks `nn` (and `ll` with the roles exchanged) -/
+abbrev FmNN (K : Type) := List Nat → (r : Side) → CExpr K r r
+
+/-- `Matrix_ln(Xbar(name, der))` -/
+def Xm (name : String) (der : Nat) : Fm K := fun cs r c => .atom name der cs r c
+
+/-- `Dcov = Matrix_ln(D_H)`, `D_H = -Xbar('Ham',1) * dEig_inv`;  `dei x y = dEig_inv` as a function of the energies -/
+def Dm (dei : K → K → K) : Fm K := fun cs r c => .had dei (.neg (.atom "Ham" 1 cs r c))
+
+/-- `Matrix_GenDer_ln(A, dA, D)`; the last Cartesian index is the derivative direction:
+    block (r,c) = `dA[r,c] - D[r,r̄]·A[r̄,c] + A[r,c̄]·D[c̄,c]`  (nn: `dA.nn - D.nl A.ln + A.nl D.ln`,
+    ln: `dA.ln - D.ln A.nn + A.ll D.ln`) -/
+def genDer (A dA D : Fm K) : Fm K := fun cs r c =>
+  let b := cs.dropLast
+  let d := [cs.getLastD 0]
+  .add (.sub (dA cs r c) (.mul (D d r r.other) (A b r.other c))) (.mul (A b r c.other) (D d c.other c))
+
+/-- `data_K.covariant('Ham', gender=1)` = `V_covariant`: `Xbar('Ham',1)` on the diagonal blocks, zero `ln`/`nl` -/
+def Vcov : Fm K := fun cs r c => if r = c then .atom "Ham" 1 cs r c else .zero r c
+
+/-- `data_K.covariant(name, gender=1)` for `name ≠ 'Ham'` -/
+def covGender (dei : K → K → K) (name : String) : Fm K := genDer (Xm name 0) (Xm name 1) (Dm dei)
+
+/-- `InvMass = Matrix_GenDer_ln(covariant('Ham',commader=1), covariant('Ham',commader=2), Dcov)` -/
+def invMass (dei : K → K → K) : Fm K := genDer (Xm "Ham" 1) (Xm "Ham" 2) (Dm dei)
+
+/-- `DerWln = Matrix_GenDer_ln(covariant('Ham',2), covariant('Ham',3), Dcov)` -/
+def derWln (dei : K → K → K) : Fm K := genDer (Xm "Ham" 2) (Xm "Ham" 3) (Dm dei)
+
+/-- `DerDcov.ln[b,d]` (and `nl` by exchanging the roles of the sets):
+    `-(W[b,d] + V.ll[b] D[d] + V.ll[d] D[b] - D[b] V.nn[d] - D[d] V.nn[b]) * dEinv`, `V = covariant('Ham', gender=1)` -/
+def derDcov (dei : K → K → K) : Fm K := fun cs r c =>
+  let b := [cs.getD 0 0]
+  let d := [cs.getD 1 0]
+  let D := Dm dei
+  .had dei (.neg
+    (.sub (.sub (.add (.add (Xm "Ham" 2 cs r c) (.mul (Vcov b r r) (D d r c))) (.mul (Vcov d r r) (D b r c)))
+      (.mul (D b r c) (Vcov d c c))) (.mul (D d r c) (Vcov b c c))))
+
+def alpha (c : Nat) : Nat := (c + 1) % 3
+def beta (c : Nat) : Nat := (c + 2) % 3
+
+/-- `x + x.swapaxes(0,1).conj()` -/
+def plusHerm {r : Side} (x : CExpr K r r) : CExpr K r r := .add x (.herm x)
+
+/-- `Omega.nn[c]` -/
+def omegaE (I half : K) (dei : K → K → K) (int ext : Bool) (oo : String) : FmNN K := fun cs r =>
+  let c := cs.getD 0 0
+  let D := Dm dei
+  let A := Xm (K := K) "AA" 0
+  let o := r.other
+  let s0 : CExpr K r r := .zero r r
+  let s1 := if int then .add s0 (.smul (-I) (.mul (D [alpha c] r o) (D [beta c] o r))) else s0
+  let s2 := if ext then
+      .add (.add (.sub (.add s1 (.smul half (Xm oo 0 [c] r r))) (.mul (D [alpha c] r o) (A [beta c] o r)))
+        (.mul (D [beta c] r o) (A [alpha c] o r))) (.smul (-I) (.mul (A [alpha c] r r) (A [beta c] r r)))
+    else s1
+  plusHerm s2
+
+/-- `DerOmega.nn[c,d]` -/
+def derOmegaE (I half : K) (dei : K → K → K) (int ext : Bool) (oo : String) : FmNN K := fun cs r =>
+  let c := cs.getD 0 0
+  let d := cs.getD 1 0
+  let D := Dm dei
+  let dD := derDcov dei
+  let A := Xm (K := K) "AA" 0
+  let dA := covGender dei "AA"
+  let dO := covGender dei oo
+  let o := r.other
+  let s0 : CExpr K r r := if ext then .smul half (dO [c, d] r r) else .zero r r
+  let term (sg : Bool) (a b : Nat) (acc : CExpr K r r) : CExpr K r r :=
+    let sgn (x : CExpr K r r) : CExpr K r r := if sg then x else .neg x
+    let acc1 := if int then .add acc (sgn (.smul (-I) (.mul (D [a] r o) (dD [b, d] o r)))) else acc
+    if ext then
+      .add (.add (.add acc1 (sgn (.neg (.mul (D [a] r o) (dA [b, d] o r)))))
+        (sgn (.neg (.mul (dD [a, d] r o) (A [b] o r))))) (sgn (.smul (-I) (.mul (A [a] r r) (dA [b, d] r r))))
+    else acc1
+  plusHerm (term false (beta c) (alpha c) (term true (alpha c) (beta c) s0))
+
+def eCol : K → K → K := fun _ y => y
+def eRow : K → K → K := fun x _ => x
+
+/-- `Morb_H.nn[c]` -/
+def morbHE (I half : K) (dei : K → K → K) (int ext : Bool) : FmNN K := fun cs r =>
+  let c := cs.getD 0 0
+  let D := Dm dei
+  let A := Xm (K := K) "AA" 0
+  let B := Xm (K := K) "BB" 0
+  let o := r.other
+  let s0 : CExpr K r r := .zero r r
+  let s1 := if int then .add s0 (.smul (-I) (.mul (.had eCol (D [alpha c] r o)) (D [beta c] o r))) else s0
+  let s2 := if ext then
+      .add (.add (.sub (.add s1 (.smul half (Xm "CC" 0 [c] r r))) (.mul (D [alpha c] r o) (B [beta c] o r)))
+        (.mul (D [beta c] r o) (B [alpha c] o r)))
+        (.smul (-I) (.mul (.had eCol (A [alpha c] r r)) (A [beta c] r r)))
+    else s1
+  plusHerm s2
+
+/-- `Morb_Hpm.nn[c] = Morb_H.nn + sign * Eav.nn * Omega.nn`  (`sgn` = the number `sign`) -/
+def morbHpmE (I half sgn : K) (dei : K → K → K) (int ext : Bool) (oo : String) : FmNN K := fun cs r =>
+  .add (morbHE I half dei int ext cs r)
+    (.smul sgn (.had (fun x y => half * (x + y)) (omegaE I half dei int ext oo cs r)))
+
+/-- `Der3E.nn[a,b,c]` -/
+def der3E (dei : K → K → K) : FmNN K := fun cs r =>
+  let a := cs.getD 0 0
+  let b := cs.getD 1 0
+  let c := cs.getD 2 0
+  let D := Dm dei
+  let V := Xm (K := K) "Ham" 1
+  let dV := invMass dei
+  let dD := derDcov dei
+  let o := r.other
+  .sub (.sub (.add (.add (derWln dei [a, b, c] r r) (.mul (dV [a, c] r o) (D [b] o r)))
+    (.mul (V [a] r o) (dD [b, c] o r))) (.mul (dD [b, c] r o) (V [a] o r))) (.mul (D [b] r o) (dV [a, c] o r))
+
+/-- `Der2Spin.nn[b,d,e]` (the same body serves `Der2A`, `Der2B`, `Der2O`, `Der2H` with another matrix name) -/
+def der2X (dei : K → K → K) (name : String) : Fm K := fun cs r c =>
+  let e := [cs.getLastD 0]
+  let bd := cs.dropLast
+  let d := [bd.getLastD 0]
+  let b := bd.dropLast
+  let D := Dm dei
+  let dD := derDcov dei
+  let S := Xm (K := K) name 0
+  let dS := covGender dei name
+  let Sde := genDer (Xm name 1) (Xm name 2) D
+  let ro := r.other
+  let co := c.other
+  .add (.add (.sub (.sub (Sde cs r c) (.mul (dD (d ++ e) r ro) (S b ro c))) (.mul (D d r ro) (dS (b ++ e) ro c)))
+    (.mul (S b r co) (dD (d ++ e) co c))) (.mul (dS (b ++ e) r co) (D d co c))
+
+/-- `DerMorb_H.nn[c,d]` -/
+def derMorbHE (I half : K) (dei : K → K → K) (int ext : Bool) : FmNN K := fun cs r =>
+  let c := cs.getD 0 0
+  let d := cs.getD 1 0
+  let D := Dm dei
+  let dD := derDcov dei
+  let V := Xm (K := K) "Ham" 1
+  let A := Xm (K := K) "AA" 0
+  let dA := covGender dei "AA"
+  let B := Xm (K := K) "BB" 0
+  let dB := covGender dei "BB"
+  let dH := covGender dei "CC"
+  let o := r.other
+  let two : K → K := fun x => x + x
+  let s0 : CExpr K r r := .zero r r
+  let termI (sg : Bool) (a b : Nat) (acc : CExpr K r r) : CExpr K r r :=
+    let sgn (x : CExpr K r r) : CExpr K r r := if sg then x else .neg x
+    .add acc (sgn (.smul (two (-I)) (.mul (D [a] r o) (.had eRow (dD [b, d] o r)))))
+  let s1 := if int then
+      termI false (beta c) (alpha c) (termI true (alpha c) (beta c)
+        (.add s0 (.smul (two (-I)) (.mul (.mul (D [alpha c] r o) (V [d] o o)) (D [beta c] o r)))))
+    else s0
+  let termE (sg : Bool) (a b : Nat) (acc : CExpr K r r) : CExpr K r r :=
+    let sgn (x : CExpr K r r) : CExpr K r r := if sg then x else .neg x
+    .add (.add (.add acc (sgn (.smul (two (-I)) (.mul (.had eCol (A [a] r r)) (dA [b, d] r r)))))
+      (sgn (.neg (.add (.mul (D [a] r o) (dB [b, d] o r)) (.mul (D [a] r o) (dB [b, d] o r))))))
+      (sgn (.neg (.add (.mul (.herm (B [a] o r)) (dD [b, d] o r)) (.mul (.herm (B [a] o r)) (dD [b, d] o r)))))
+  let s2 := if ext then
+      termE false (beta c) (alpha c) (termE true (alpha c) (beta c)
+        (.add (.add s1 (dH [c, d] r r))
+          (.smul (two (-I)) (.mul (.mul (A [alpha c] r r) (V [d] r r)) (A [beta c] r r)))))
+    else s1
+  .smul half (plusHerm s2)
+
+/-- `DerMorb.nn[c,d] = DerMorb_H.nn + sign * herm-part( Eav*dO + ½ O[c] V[d] + ½ V[d] O[c] )` -/
+def derMorbE (I half sgn : K) (dei : K → K → K) (int ext : Bool) (oo : String) : FmNN K := fun cs r =>
+  let c := cs.getD 0 0
+  let d := cs.getD 1 0
+  let V := Xm (K := K) "Ham" 1
+  let O := omegaE I half dei int ext oo
+  let dO := derOmegaE I half dei int ext oo
+  let tmp : CExpr K r r :=
+    .add (.add (.had (fun x y => half * (x + y)) (dO [c, d] r)) (.smul half (.mul (O [c] r) (V [d] r r))))
+      (.smul half (.mul (V [d] r r) (O [c] r)))
+  .add (derMorbHE I half dei int ext cs r) (.smul sgn (.smul half (plusHerm tmp)))
+
+
+/-- sum of a list of terms -/
+def sumE {r c : Side} (l : List (CExpr K r c)) : CExpr K r c := l.foldl .add (.zero r c)
+
+def sgnE {r c : Side} (plus : Bool) (x : CExpr K r c) : CExpr K r c := if plus then x else .neg x
+
+/-- `Der2Dcov.ln[b,d,e]` (and `nl` with the roles exchanged) -/
+def der2Dcov (dei : K → K → K) : Fm K := fun cs r c =>
+  let b := cs.getD 0 0
+  let d := cs.getD 1 0
+  let e := cs.getD 2 0
+  let D := Dm dei
+  let dD := derDcov dei
+  let dV := invMass dei
+  let V := Xm (K := K) "Ham" 1
+  .had dei (.neg (sumE [
+    derWln dei [b, d, e] r c,
+    .mul (dV [b, e] r r) (D [d] r c),
+    .mul (dV [d, e] r r) (D [b] r c),
+    .mul (V [e] r r) (dD [b, d] r c),
+    .mul (V [d] r r) (dD [b, e] r c),
+    .mul (V [b] r r) (dD [d, e] r c),
+    .neg (.mul (dD [d, e] r c) (V [b] c c)),
+    .neg (.mul (dD [b, d] r c) (V [e] c c)),
+    .neg (.mul (dD [b, e] r c) (V [d] c c)),
+    .neg (.mul (D [b] r c) (dV [d, e] c c)),
+    .neg (.mul (D [d] r c) (dV [b, e] c c))]))
+
+/-- `Der2Omega.nn[c,d,e]` -/
+def der2OmegaE (I half : K) (dei : K → K → K) (int ext : Bool) : FmNN K := fun cs r =>
+  let c := cs.getD 0 0
+  let d := cs.getD 1 0
+  let e := cs.getD 2 0
+  let D := Dm dei
+  let dD := derDcov dei
+  let ddD := der2Dcov dei
+  let A := Xm (K := K) "AA" 0
+  let dA := covGender dei "AA"
+  let ddA := der2X dei "AA"
+  let ddO := der2X dei "rotAA"
+  let o := r.other
+  let loop (pl : Bool) (a b : Nat) : List (CExpr K r r) :=
+    (if int then [
+      sgnE pl (.smul (-I) (.mul (dD [a, e] r o) (dD [b, d] o r))),
+      sgnE pl (.smul (-I) (.mul (D [a] r o) (ddD [b, d, e] o r)))] else []) ++
+    (if ext then [
+      sgnE pl (.neg (.mul (dD [a, e] r o) (dA [b, d] o r))),
+      sgnE pl (.neg (.mul (D [a] r o) (ddA [b, d, e] o r))),
+      sgnE pl (.neg (.mul (ddD [a, d, e] r o) (A [b] o r))),
+      sgnE pl (.neg (.mul (dD [a, d] r o) (dA [b, e] o r))),
+      sgnE pl (.smul (-I) (.mul (dA [a, e] r r) (dA [b, d] r r))),
+      sgnE pl (.smul (-I) (.mul (A [a] r r) (ddA [b, d, e] r r)))] else [])
+  plusHerm (sumE ((if ext then [.smul half (ddO [c, d, e] r r)] else [])
+    ++ loop true (alpha c) (beta c) ++ loop false (beta c) (alpha c)))
+
+/-- `Der2Morb_H.nn[c,d,e]` -/
+def der2MorbHE (I half : K) (dei : K → K → K) (int ext : Bool) : FmNN K := fun cs r =>
+  let c := cs.getD 0 0
+  let d := cs.getD 1 0
+  let e := cs.getD 2 0
+  let D := Dm dei
+  let dD := derDcov dei
+  let ddD := der2Dcov dei
+  let V := Xm (K := K) "Ham" 1
+  let dV := invMass dei
+  let A := Xm (K := K) "AA" 0
+  let dA := covGender dei "AA"
+  let ddA := der2X dei "AA"
+  let B := Xm (K := K) "BB" 0
+  let dB := covGender dei "BB"
+  let ddB := der2X dei "BB"
+  let ddH := der2X dei "CC"
+  let o := r.other
+  let m2I : K := (-I) + (-I)
+  let twice (x : CExpr K r r) : CExpr K r r := .add x x
+  let loopI (pl : Bool) (a b : Nat) : List (CExpr K r r) := [
+      sgnE pl (.smul (-I) (.mul (.mul (dD [a, e] r o) (V [d] o o)) (D [b] o r))),
+      sgnE pl (.smul (-I) (.mul (.mul (D [a] r o) (V [d] o o)) (dD [b, e] o r))),
+      sgnE pl (.smul m2I (.mul (dD [a, e] r o) (.had eRow (dD [b, d] o r)))),
+      sgnE pl (.smul m2I (.mul (D [a] r o) (.had eRow (ddD [b, d, e] o r)))),
+      sgnE pl (.smul m2I (.mul (.mul (D [a] r o) (V [e] o o)) (dD [b, d] o r)))]
+  let loopE (pl : Bool) (a b : Nat) : List (CExpr K r r) := [
+      sgnE pl (.smul (-I) (.mul (.mul (dA [a, e] r r) (V [d] r r)) (A [b] r r))),
+      sgnE pl (.smul (-I) (.mul (.mul (A [a] r r) (V [d] r r)) (dA [b, e] r r))),
+      sgnE pl (.smul m2I (.mul (.had eCol (dA [a, e] r r)) (dA [b, d] r r))),
+      sgnE pl (.smul m2I (.mul (.had eCol (A [a] r r)) (ddA [b, d, e] r r))),
+      sgnE pl (.smul m2I (.mul (.mul (A [a] r r) (V [e] r r)) (dA [b, d] r r))),
+      sgnE pl (.neg (twice (.mul (dD [a, e] r o) (dB [b, d] o r)))),
+      sgnE pl (.neg (twice (.mul (D [a] r o) (ddB [b, d, e] o r)))),
+      sgnE pl (.neg (twice (.mul (.herm (dB [a, e] o r)) (dD [b, d] o r)))),
+      sgnE pl (.neg (twice (.mul (.herm (B [a] o r)) (ddD [b, d, e] o r))))]
+  let tI := if int then
+      [.smul m2I (.mul (.mul (D [alpha c] r o) (dV [d, e] o o)) (D [beta c] o r))]
+        ++ loopI true (alpha c) (beta c) ++ loopI false (beta c) (alpha c)
+    else []
+  let tE := if ext then
+      [ddH [c, d, e] r r, .smul m2I (.mul (.mul (A [alpha c] r r) (dV [d, e] r r)) (A [beta c] r r))]
+        ++ loopE true (alpha c) (beta c) ++ loopE false (beta c) (alpha c)
+    else []
+  .smul half (plusHerm (sumE (tI ++ tE)))
+
+/-- `Der2Morb.nn[c,d,e]` -/
+def der2MorbE (I half sgn : K) (dei : K → K → K) (int ext : Bool) (oo : String) : FmNN K := fun cs r =>
+  let c := cs.getD 0 0
+  let d := cs.getD 1 0
+  let e := cs.getD 2 0
+  let V := Xm (K := K) "Ham" 1
+  let dV := invMass dei
+  let O := omegaE I half dei int ext oo
+  let dO := derOmegaE I half dei int ext oo
+  let ddO := der2OmegaE I half dei int ext
+  let tmp : CExpr K r r := sumE [
+    .had (fun x y => half * (x + y)) (ddO [c, d, e] r),
+    .smul half (.mul (dO [c, e] r) (V [d] r r)),
+    .smul half (.mul (dO [c, d] r) (V [e] r r)),
+    .smul half (.mul (V [d] r r) (dO [c, e] r)),
+    .smul half (.mul (V [e] r r) (dO [c, d] r)),
+    .smul half (.mul (O [c] r) (dV [d, e] r r)),
+    .smul half (.mul (dV [d, e] r r) (O [c] r))]
+  .add (der2MorbHE I half dei int ext cs r) (.smul sgn (.smul half (plusHerm tmp)))
+
+/-- a product of inner blocks (`FormulaProduct.nn`): `res = x₀; for x in rest: res = res·x` -/
+def prodE {r : Side} (x : CExpr K r r) (rest : List (CExpr K r r)) : CExpr K r r := rest.foldl .mul x
+end
+
 /-! ### driver -/
 open WB.IO
+
+/-! #### driver support for the formula classes -/
+
+/-- `dEig_inv` as a function of two (real) energies, threshold `thr` -/
+def deiG (thr : Rat) (x y : GRat) : GRat :=
+  if decide (x.re - y.re < thr) && decide (y.re - x.re < thr) then ⟨0, 0⟩ else (x - y)⁻¹
+
+/-- flattened tensor `T[m][n][comps...]` of an `N × N × 3^k` table -/
+def flatGet (N : Nat) (re im : List Rat) (m n : Nat) (cs : List Nat) : GRat :=
+  let k := cs.length
+  let off := cs.foldl (fun acc c => acc * 3 + c) 0
+  let pos := (m * N + n) * 3 ^ k + off
+  ⟨re.getD pos 0, im.getD pos 0⟩
+
+def mkEnv (N : Nat) (inn out : List Nat) (E : List Rat) (atoms : List (String × Nat × List Rat × List Rat)) :
+    BEnv GRat where
+  dim := fun s => match s with | .inn => inn.length | .out => out.length
+  blk := fun name der cs r c i j =>
+    let idx (s : Side) (t : Nat) : Nat := match s with | .inn => inn.getD t 0 | .out => out.getD t 0
+    match atoms.find? (fun a => a.1 == name && a.2.1 == der) with
+    | some a => flatGet N a.2.2.1 a.2.2.2 (idx r i) (idx c j) cs
+    | none => ⟨0, 0⟩
+  en := fun s t => GRat.ofRat (E.getD (match s with | .inn => inn.getD t 0 | .out => out.getD t 0) 0)
+
+/-- the `nn` expression of a formula class by name, for Cartesian components `cs` -/
+def classExpr (cls : String) (int ext : Bool) (sgn : Rat) (thr : Rat) (cs : List Nat) : Option (CExpr GRat .inn .inn) :=
+  let I := GRat.I
+  let half : GRat := ⟨1/2, 0⟩
+  let dei := deiG thr
+  let s : GRat := GRat.ofRat sgn
+  let V := Xm (K := GRat) "Ham" 1
+  match cls with
+  | "Omega" => some (omegaE I half dei int ext "rotAA" cs .inn)
+  | "DerOmega" => some (derOmegaE I half dei int ext "rotAA" cs .inn)
+  | "Morb_H" => some (morbHE I half dei int ext cs .inn)
+  | "Morb_Hpm" => some (morbHpmE I half s dei int ext "rotAA" cs .inn)
+  | "DerMorb_H" => some (derMorbHE I half dei int ext cs .inn)
+  | "DerMorb" => some (derMorbE I half s dei int ext "rotAA" cs .inn)
+  | "Der3E" => some (der3E dei cs .inn)
+  | "InvMass" => some (invMass dei cs .inn .inn)
+  | "Spin" => some (Xm "SS" 0 cs .inn .inn)
+  | "DerSpin" => some (covGender dei "SS" cs .inn .inn)
+  | "Der2Spin" => some (der2X dei "SS" cs .inn .inn)
+  | "Der2Omega" => some (der2OmegaE I half dei int ext cs .inn)
+  | "Der2Morb_H" => some (der2MorbHE I half dei int ext cs .inn)
+  | "Der2Morb" => some (der2MorbE I half s dei int ext "rotAA" cs .inn)
+  | "Velocity" => some (Vcov cs .inn .inn)
+  | "VelVelVel" => some (prodE (V [cs.getD 0 0] .inn .inn) [V [cs.getD 1 0] .inn .inn, V [cs.getD 2 0] .inn .inn])
+  | "VelMassVel" => some (prodE (V [cs.getD 0 0] .inn .inn)
+      [invMass dei [cs.getD 1 0, cs.getD 2 0] .inn .inn, V [cs.getD 3 0] .inn .inn])
+  | "MassVel" => some (prodE (invMass dei [cs.getD 0 0, cs.getD 1 0] .inn .inn) [V [cs.getD 2 0] .inn .inn])
+  | "VelOmega" => some (prodE (V [cs.getD 0 0] .inn .inn) [omegaE I half dei int ext "rotAA" [cs.getD 1 0] .inn])
+  | _ => none
+
+def parseAtoms : List String → Option (List (String × Nat × List Rat × List Rat))
+  | nm :: re :: im :: rest =>
+    match nm.splitOn ":", parseRats? re, parseRats? im, parseAtoms rest with
+    | [n, d], some a, some b, some tl => (parseNat? d).map fun dd => (n, dd, a, b) :: tl
+    | _, _, _, _ => none
+  | [] => some []
+  | _ => none
 
 def showG (z : GRat) : String := showRat z.re ++ "," ++ showRat z.im
 
@@ -152,6 +572,19 @@ def handle : List String → String
         | _ => []
       showG (productTrace i (pairUp tabs))
     | _, _ => "bad-op"
+  -- fx Class int ext sign thr N inn out E comps atoms... : the nn block of a formula class for the listed Cartesian
+  -- component tuples; blocks are separated by '|'
+  | "fx" :: cls :: int :: ext :: sg :: th :: n :: inn :: out :: e :: comps :: atoms =>
+    match parseBool? int, parseBool? ext, parseRat? sg, parseRat? th, parseNat? n, parseNats? inn, parseNats? out,
+      parseRats? e, parseNatss? comps, parseAtoms atoms with
+    | some i, some x, some sgn, some thr, some N, some ii, some oo, some E, some css, some ats =>
+      let env := mkEnv N ii oo E ats
+      let blocks := css.map fun cs =>
+        match classExpr cls i x sgn thr cs with
+        | some ex => showM ii.length ii.length (ex.eval GRat.conj env)
+        | none => "unknown-class"
+      "|".intercalate blocks
+    | _, _, _, _, _, _, _, _, _, _ => "bad-op"
   | _ => "bad-op"
 
 end WB.C04
